@@ -151,8 +151,10 @@ Definition c_vundo1 (c : acore) (e : xentry) : acore :=
     | Some (v, _) => c_index (c_xs (c_stat c (a_decr (xstat c) v)) (adel (xs c) a)) (srem a (xindex c))
     end
   | XUpdate a nw old =>
+    (* what the statistics count is the record of a as it is now (repository commit 7813a3d) *)
+    let cur := match aget (xs c) a with Some (v, _) => v | None => fst nw end in
     let c1 := c_set_validator c a old in
-    c_stat c1 (a_adjust (xstat c1) (fst old) (fst nw))
+    c_stat c1 (a_adjust (xstat c1) (fst old) cur)
   | XDelete a old =>
     let c1 := c_set_validator c a old in
     c_stat c1 (a_incr (xstat c1) (fst old))
